@@ -134,6 +134,10 @@ C03_LowestDest == (out.set /\ out.ok) =>
     IN IF D = {} THEN Len(out.hops) = Count ELSE Len(out.hops) = (CHOOSE t \in D : \A u \in D : t <= u) - MinTTL + 1
 C06_Order == \A k \in DOMAIN sent : sent[k].ttl = MinTTL + k - 1
 C06_Paced == \A k \in 2..Len(sent) : sent[k].t >= sent[k - 1].t + Delay
+\* the whole per-TTL timeout is listening time: two consecutive sends are at least one timeout apart unless a reply was ACCEPTED in
+\* between - packets that are skipped (bad, no packet) never shorten it (wire level: Props!SerialListens)
+C02_Listens == \A k \in 2..Len(sent) : \/ sent[k].t >= sent[k - 1].t + Timeout
+                                         \/ \E j \in DOMAIN acc : acc[j].at >= sent[k - 1].t /\ acc[j].at <= sent[k].t
 C06_Stop  == \A j \in DOMAIN acc : acc[j].dest => Cardinality({k \in DOMAIN sent : sent[k].t > acc[j].at}) = 0
 C05_RTT == \A j \in DOMAIN acc : acc[j].rtt >= 0 /\ acc[j].rtt = acc[j].at - SentAt(acc[j].ttl)
 \* keep-first: the reported entry for a TTL is the first accepted reply for it, unless a destination reply replaced it
